@@ -106,3 +106,11 @@ impl<T> DerefMut for Meta<T> {
         &mut self.node
     }
 }
+
+/// Verification hook (C06): the whole span table, in index order.
+#[cfg(feature = "verif-hooks")]
+impl Spans {
+    pub fn verif_c06_all(&self) -> &[Span] {
+        &self.0
+    }
+}
